@@ -404,6 +404,7 @@ pub fn main(req: &str) {
         }
     }
     let d = if get("noargs") == Some("1") { d } else { d.config_with_args() };
+    log(format!("CFG {}", d.verif_dump().replace(' ', ";")));
     match get("act").unwrap() {
         "listapi" => d.list_benches(),
         "benchapi" => d.run_benches(),
